@@ -105,6 +105,7 @@ impl<'a> CView<'a> {
     }
 
     pub fn tail(&self, n: usize) -> serde_json::Value {
+        let n = if std::env::var("VERIF_FULL").is_ok() { usize::MAX } else { n };
         let r = &self.run.recs;
         let start = r.len().saturating_sub(n);
         serde_json::to_value(&r[start..]).unwrap_or(serde_json::Value::Null)
